@@ -122,8 +122,11 @@ def gen_pool(rng, profile, n):
             if rng.random() < 0.1:
                 st.append(rng.choice(_TAILS))
             if profile == "long-stems" and rng.random() < 0.15:
-                # long host stem / long first stem
+                # long host stem
                 st = [st[0]] + [long_stem(rng, b"h:")] + st[1:]
+            if profile == "long-stems" and rng.random() < 0.08:
+                # the very first stem is long (the root node of the trie is read by address)
+                st = [long_stem(rng, b"s:")] + st[1 : rng.randint(1, len(st))]
             push(b"".join(st))
     elif profile == "any-byte":
         alpha = [0x00, 0xFF, 0x7B, 0x7D, 0x7E, 0x63, 0x61, 0x62, 0x7F, 0x0A, 0x20]
